@@ -284,8 +284,20 @@ def check_extension_ops(ctx: Ctx, qtype: ClassInfo):
     rv = [v for r, v in o.returns if not (isinstance(r.value, ast.Name))]
     ok = any(v.lay == "TEXP:ENDPAD:LE" for v in rv)
     ctx.check(ok, "OR-EXT", fill, "fill zero-extends at the end (high bits) of the LSB-first list", "v[1] + k * [False]", f"fill returns {[str(v) for v in rv]}: padding in front of an LSB-first list shifts the value instead of widening it", fill.node)
-    facts = norm(fill.node)
-    ctx.check("len(v[1]) >= cls.BIT_SIZE" in facts.replace(fill.params[1], "v") and "cls.BIT_SIZE - len(v[1])" in facts.replace(fill.params[1], "v"), "OR-EXT", fill, "pads exactly up to BIT_SIZE", "", "the number of zeros is not BIT_SIZE - len", fill.node)
+    V = fill.params[1]
+    env = {k: v for k, v in q.straight_line_env(fill.body, None).items()}
+    for s_ in ast.walk(fill.node):
+        if isinstance(s_, ast.Assign) and len(s_.targets) == 1 and isinstance(s_.targets[0], ast.Name):
+            env.setdefault(s_.targets[0].id, s_.value)
+    pads = [n for n in ast.walk(fill.node) if isinstance(n, ast.BinOp) and isinstance(n.op, ast.Mult) and any(isinstance(x, ast.List) and len(x.elts) == 1 and norm(x.elts[0]) == "False" for x in (n.left, n.right))]
+    if len(pads) != 1:
+        ctx.undecided(fill.short, f"pads exactly up to BIT_SIZE: {len(pads)} `k * [False]` paddings")
+    else:
+        cnt = pads[0].left if isinstance(pads[0].right, ast.List) else pads[0].right
+        lf = q.linear_form(cnt, env)
+        bits_len = {f"len({V}[1])", f"len({norm(env[k])})" if False else ""}
+        want_ok = lf is not None and lf.get("cls.BIT_SIZE") == 1 and sum(1 for k in lf if k) == 2 and any(k.startswith("len(") and v == -1 for k, v in lf.items()) and lf.get("", 0) == 0
+        ctx.check(want_ok, "OR-EXT", fill, "pads exactly up to BIT_SIZE", norm(cnt), f"the number of zeros appended is `{norm(cnt)}` (= {lf}), not BIT_SIZE - len(bits)", pads[0])
     crop = need(qtype, "crop")
     sl = [n for n in walk_no_nested(crop.node) if isinstance(n, ast.Subscript) and isinstance(n.slice, ast.Slice)]
     ok = len(sl) == 1 and sl[0].slice.lower is None and sl[0].slice.upper is not None and norm(sl[0].slice.upper) == "cls.BIT_SIZE" and sl[0].slice.step is None
